@@ -175,6 +175,9 @@ def ch_escape(ctx) -> Channel:
                 ok = (el.text or "") == s and el.get("a") == want_attr and el.get("b") == want_attr and len(el) == 0
             except etree.XMLSyntaxError:
                 ok = False
+            if not ok and len(ch.oracle_failures) >= 10:
+                ch.count("further-oracle-failures")
+                break
             if not ok:
                 ch.oracle_failures.append({"kind": "escape", "function": name, "string": shrink_string(
                     s, lambda t, f=name: not _escape_ok(t, f))[:300]})
@@ -415,8 +418,8 @@ def parse_dt_fields(text: str):
     return f"{int(y)} {int(mo)} {int(d)} {int(h)} {int(mi)} {int(s)} {us} {off}"
 
 
-def fixed_cases():
-    """every template x mode x single/multi (+ patch), benign and with one hostile title"""
+def fixed_cases(thorough: bool = False):
+    """every template x mode x single/multi (+ patch), benign and with one hostile title; the DRM grid"""
     W = env().W
     out = []
     for name, mft in W.manifests().items():
@@ -426,15 +429,33 @@ def fixed_cases():
                     continue
                 for hostile in (False, True):
                     c = {"kind": kind, "manifest": name, "mode": mode,
-                         "stream": "c05mps" if kind == "multi" else "bbb", "query": [], "rawquery": False,
+                         "stream": ("c05mps" if hostile else "c05mpy") if kind == "multi" else "bbb",
+                         "query": [["depth", "20"]] if (kind == "multi" and mode == "live") else [], "rawquery": False,
                          "host": "localhost", "now": "2024-05-06T07:08:09Z", "stored": {}, "hostile": []}
                     if hostile:
                         slot = "mps_title" if kind == "multi" else "title"
                         c["stored"][slot] = "T&C's \"<best>\" ]]> é漢</Title>"
                         c["hostile"].append(f"stored:{slot}")
                         c["query"].append(["x", "<y>&\"'"])
-                        c["hostile"].append("q:0")
+                        c["hostile"].append(f"q:{len(c['query']) - 1}")
                     out.append(c)
+    # DRM grid: every template that supports DRM x mode x single / multi-period layouts (with a clear-only
+    # subtitle track next to encrypted video and audio) x DRM systems
+    k = 0
+    for name, mft in W.manifests().items():
+        if "drmSelection" not in mft["features"]:
+            continue
+        for mode in mft["modes"]:
+            for kind, stream in (("single", "bbb"), ("multi", "c05mpb"), ("multi", "c05mps"), ("multi", "c05mpt")):
+                if kind == "multi" and mode == "odvod":
+                    continue
+                systems = ["all", "playready", "marlin", "clearkey"] if thorough else ["all", ["playready", "marlin", "clearkey"][k % 3]]
+                k += 1
+                for drm in systems:
+                    q = [["drm", drm]] + ([["depth", "20"]] if mode == "live" else [])
+                    out.append({"kind": kind, "manifest": name, "mode": mode, "stream": stream, "query": q,
+                                "rawquery": False, "host": "localhost", "now": "2024-05-06T07:08:09Z",
+                                "stored": {}, "hostile": []})
     for q in ([], [["depth", "20"], ["x", "<y>&\"'"]]):
         c = {"kind": "patch", "manifest": "hand_made.mpd", "mode": "live", "stream": "bbb", "query": q,
              "rawquery": False, "host": "localhost", "now": "2024-05-06T07:08:09Z", "publish": 1714979280,
@@ -467,8 +488,8 @@ def ch_manifest_lex(ctx, bodies_out: list | None = None) -> Channel:
         "non-trivial = 200 response of a request carrying at least one hostile string with a character of "
         "& < > \" ' (or a typed-attribute comparison); distinct by full case"))
     rng = ctx.rng("manifest_lex")
-    cases = corpus_cases() + fixed_cases()
-    n = ctx.scale(900, 6000)
+    cases = corpus_cases() + fixed_cases(ctx.thorough)
+    n = ctx.scale(1400, 14000)
     cases += [W.gen_case(rng, hostile=rng.random() < .8) for _ in range(n)]
     lex_lines, lex_meta = [], []
     for case in cases:
@@ -491,7 +512,11 @@ def ch_manifest_lex(ctx, bodies_out: list | None = None) -> Channel:
         if case["hostile"] and res["twin_status"] != 200:
             ch.count("twin-not-200")
         if res["failures"]:
-            ch.oracle_failures.append(failure_record(case, res))
+            # only the first failure is shrunk (a shrink costs dozens of requests)
+            if len(ch.oracle_failures) < 25:
+                ch.oracle_failures.append(failure_record(case, res, shrink=not ch.oracle_failures))
+            else:
+                ch.count("further-oracle-failures")
             continue
         root = res["root"]
         if bodies_out is not None and len(res["body"]) < 400_000:
